@@ -42,6 +42,17 @@ def run(chk):
         chk.evaluations += 1
         if fails:
             found += chk.violation('refinement', fails[0], {'kind': 'refine-twice', 'case': case})
+    # 1-D searches driven to the resolution of binary64 towards the faces of the box (linear objectives, tiny eps): every evaluation stays inside
+    for _ in range(240 if thorough else 80):
+        lo, hi = H.random_box(rng, 1)
+        case = {'n': 1, 'lo': lo, 'hi': hi, 'objective': {'kind': 'linear', 'a': [(1 if _ % 2 else -1) * round(rng.uniform(0.3, 2), 2)]}, 'r': round(rng.uniform(1.6, 3), 2),
+                'eps': 1e-18, 'iters': 90, 'refine': False, 'density': None}
+        fails = O.guarded(O.c05, case)
+        chk.evaluations += 1
+        if fails:
+            found += chk.violation('outside-box', fails[0], {'kind': 'solve', 'case': case})
+            if found > 2:
+                break
     # an evolvent that already served queries for another box and was then given this one (SetBounds): images lie in the CURRENT box
     for _ in range(60 if thorough else 20):
         n = rng.choice([1, 2, 3])
